@@ -34,6 +34,7 @@ def candidate_facts(pop, employer):
                 out.append((a, "connected_to", o))
     for b in bosses:
         out.append((b, "head_of", employer[pop[b]["agent"]]))
+        out.append((employer[pop[b]["agent"]], "headed_by", b))  # the same fact asserted from the inverse side
     for o in orgs:
         for o2 in orgs:
             out += [(o, "part_of", o2), (o, "has_part", o2), (o, "linked_to", o2)]
